@@ -41,6 +41,10 @@ def run(rep, pdb, tier):
     lp = spawn_loops[0]
     r = for_range(ctx, lp)
     T = ("call", "num_cpus::get")
+    # `num_cpus::get().max(1)`: the documented contract (>= 1) spelled out; the same T everywhere it is used
+    T1 = ("call", "std::cmp::Ord::max", T, num(1))
+    if r is not None and r[2] == T1:
+        T = T1
     # ---- workers: T is num_cpus::get(), used unmodified for chunk, loop bound, last-worker test
     uses_T = r is not None and r[1] == num(0) and r[2] == T and not r[3] and not r[4]
     # ---- slices
